@@ -124,10 +124,12 @@ def check_design(ctx, d, steps, memmap, label):
             fp0 = fingerprint(src)
         io_src = (sorted(w.name for w in src.wirevector_subset(pyrtl.Input)), sorted(w.name for w in src.wirevector_subset(pyrtl.Output)))
         io_res = (sorted(w.name for w in res.wirevector_subset(pyrtl.Input)), sorted(w.name for w in res.wirevector_subset(pyrtl.Output)))
-        if name != 'synthesize' and io_res != io_src:
+        if io_res != io_src:
+            # (an Input no net reads is still part of the interface: the testbench of the source drives it by name)
             ctx.violation(name + ':wrong-block', '%s(update_working_block=False, block=src) returned a block with inputs/outputs %r, the source has %r' % (
                 name, io_res, io_src), dict(replay, op=name))
             ok = False
+            results.pop(name, None)
             continue
         if res is src:
             ctx.violation(name + ':returned-source', '%s returned the source block itself' % name, dict(replay, op=name))
